@@ -1,5 +1,5 @@
 """C01 — emu-sv noiseless dynamics (structural clauses)."""
-from ..rules import step
+from ..rules import drivers, step
 
 META = {
     "title": "emu-sv noiseless runs reproduce the Pulser Hamiltonian dynamics",
@@ -35,3 +35,4 @@ def check(ctx):
     from ..rules import observables
     observables.hamiltonian_structure(ctx)
     step.sv_initial_hamiltonian(ctx)
+    drivers.phase_shortcut(ctx)
